@@ -200,6 +200,8 @@ class SqlFluffColumn(Column):
                 src_col.raw_name, src_col.parent.raw_name if src_col.parent else None
             )
             for src_col in src_cols
+            # a path that starts at a column of a subquery comes from constants only: it has no source column
+            if not isinstance(src_col.parent, SubQuery)
         ]
         return source_columns
 
